@@ -163,6 +163,7 @@ type assetM struct {
 	// "was within its limits at the previous observation of the current parameter epoch"
 	okLimit bool
 	okTBL   bool
+	fresh   bool // parameter epoch just started (C04: the two flags above are taken from the chain's record)
 }
 
 type counters struct {
@@ -367,6 +368,7 @@ func (m *machine) applyParams(as []assetJ) {
 				// new parameter epoch: the "while unchanged" clauses start from how the new parameters fit now
 				na.okLimit = sum(na.cur, na.in).Cmp(na.limit) <= 0
 				na.okTBL = !aj.TimeLimited || na.tlc.Cmp(na.tbl) <= 0
+				na.fresh = true
 				m.n.paramChanges++
 			}
 			if relisted {
@@ -760,10 +762,32 @@ func (m *machine) applyParamsOp(op hOp) error {
 			return pbt.Failf("harness/params-prediction", "invalid parameters accepted: %+v", op.Assets)
 		}
 		m.applyParams(op.Assets)
+		if m.c04() {
+			m.epochStart()
+		}
 	} else if strict && validAssets(op.Assets, len(m.c.E.Users)) {
 		return pbt.Failf("harness/params-prediction", "valid parameters rejected: %v", res)
 	}
 	return m.afterStep()
+}
+
+// epochStart (C04): "while the parameters are unchanged" starts from how the new parameters fit what the chain has
+// recorded at the moment of the change (not from the model's idea of it).
+func (m *machine) epochStart() {
+	for _, d := range m.order {
+		a := m.assets[d]
+		if !a.fresh {
+			continue
+		}
+		a.fresh = false
+		resp, err := m.c.E.K.HTLC.AssetSupply(context.Context(m.c.Ctx), &htlctypes.QueryAssetSupplyRequest{Denom: d})
+		if err != nil || resp.AssetSupply == nil {
+			continue
+		}
+		s := resp.AssetSupply
+		a.okLimit = sum(s.CurrentSupply.Amount.BigInt(), s.IncomingSupply.Amount.BigInt()).Cmp(a.limit) <= 0
+		a.okTBL = !a.raw.TimeLimited || s.TimeLimitedCurrentSupply.Amount.BigInt().Cmp(a.tbl) <= 0
+	}
 }
 
 func (m *machine) applyCreate(op hOp) error {
